@@ -398,6 +398,67 @@ def checkLts (args res : List String) : Except String (Findings × String) := do
   let between := ref.length > k && ref.length < k * k
   pure (f, s!"overload={overload} between={bchar between} big={bchar (n > 12)}")
 
+/-- `cliop <repr> <op> <A> [<B>|<ranks>]`: one command of the real `vata` binary (cli/vata.cc, cli/operations.hh: loading through state
+    dictionaries, `-p` / `-s` pruning, the union / product dictionaries of util.cc, dumping by names) judged by the proved deciders.
+    The result automaton was parsed back from the printed Timbuk text by the Python side (`R=`), or `out=E|N|C|T`. -/
+def checkCliOp (args res : List String) : Except String (Findings × String) := do
+  let repr ← getE args[0]? "bad repr"
+  let op ← getE args[1]? "bad op"
+  let A ← getE (args[2]? >>= parseTA?) "bad A"
+  let tag := s!"cli={repr}/{op}"
+  match kv res "out" with
+  | some "N" => return ([], tag ++ " notimpl=1")
+  | some "T" => return ([], tag ++ " timeout=1")
+  | some o => return ([s!"violation vata {repr} {op} ended with {o} (crash / error / unparsable output) on well-formed input"], tag)
+  | none => pure ()
+  let mut f : Findings := []
+  match op with
+  | "simdown" | "simup" =>
+    let up := op == "simup"
+    if up && !allUsefulB A then throw "precondition: upward simulation needs an automaton without useless states"
+    let rel ← getE ((kv res "rel") >>= parseRel?) "bad rel"
+    let ref := if up then upSimRef A else downSimRef A
+    if !relEq rel ref then
+      let extra := rel.filter (fun p => !ref.contains p)
+      let missing := ref.filter (fun p => !rel.contains p)
+      f := f ++ [s!"violation vata {repr} sim ({op}) differs from the greatest simulation: extra={extra} missing={missing}"]
+    return (f, tag ++ s!" between={bchar (ref.length > A.states.length && ref.length < A.states.length * A.states.length)}")
+  | _ => pure ()
+  let R ← taE res "R"
+  let eA ← emptyE A
+  match op with
+  | "load" =>
+    if !(← equivE R A) then f := f ++ [s!"violation vata {repr} load changes the language"]
+    if repr == "expl" && !taEq R A then f := f ++ [s!"violation vata {repr} load|dump does not show what was loaded"]
+  | "loadp" =>
+    if !(← equivE R A) then f := f ++ [s!"violation vata {repr} -p load changes the language"]
+    -- only the explicit tree encoding promises top-down reachability (C03); the other encodings prune in their own direction
+    if repr == "expl" && !allReachableB R then f := f ++ [s!"violation vata {repr} -p load leaves an unreachable state"]
+  | "loads" =>
+    if !(← equivE R A) then f := f ++ [s!"violation vata {repr} -s load changes the language"]
+    if repr != "expl_fa" && !allUsefulB R then f := f ++ [s!"violation vata {repr} -s load leaves a useless state or rule"]
+  | "witness" =>
+    if !(← inclE R A) then f := f ++ [s!"violation vata {repr} witness not a sub-language"]
+    if (← emptyE R) && !eA then f := f ++ [s!"violation vata {repr} witness empty for a non-empty language"]
+  | "red" =>
+    if !(← equivE R A) then f := f ++ [s!"violation vata {repr} red changes the language"]
+    if R.states.length > A.states.length then f := f ++ ["violation vata red: more states"]
+    if (dedupRules R.rules).length > (dedupRules A.rules).length then f := f ++ ["violation vata red: more rules"]
+    if !(subB R.states A.states) then f := f ++ ["violation vata red: state that is not the image of a state"]
+  | "cmpl" =>
+    let ranks ← getE (args[3]? >>= (fun s => if s == "-" then some [] else natList? s ',')) "bad alphabet"
+    let Sg := (List.range ranks.length).zip ranks
+    let ok ← getE (isComplM R A Sg FUEL) "fuel(compl)"
+    if !ok then f := f ++ [s!"violation vata {repr} cmpl: not the complement over the alphabet of the file"]
+  | "union" =>
+    let B ← getE (args[3]? >>= parseTA?) "bad B"
+    if !(← getE (isUnionM R A B FUEL) "fuel(union)") then f := f ++ [s!"violation vata {repr} union: language is not the union"]
+  | "isect" =>
+    let B ← getE (args[3]? >>= parseTA?) "bad B"
+    if !(← getE (isIsectM R A B FUEL) "fuel(isect)") then f := f ++ [s!"violation vata {repr} isect: language is not the intersection"]
+  | _ => throw s!"unknown cli op {op}"
+  pure (f, tag ++ s!" emptyA={bchar eA} emptyR={bchar (← emptyE R)}")
+
 def dispatch (kind : String) (args res : List String) : Except String (Findings × String) :=
   match kind with
   | "incl" => checkIncl args res
@@ -425,6 +486,7 @@ def dispatch (kind : String) (args res : List String) : Except String (Findings 
   | "bddh" => BddChk.checkHist args res
   | "bddtd" => BddChk.checkToTd args res
   | "mthrc" => MtHist.check true args res
+  | "cliop" => checkCliOp args res
   | "apisweep" =>
     -- API sweep of C20: nothing functional is judged (a sanitizer report / crash never reaches this point); the tag is
     -- the outcome vector (R returned, N NotImplementedException, E other std::exception)
